@@ -14,7 +14,8 @@ RULE = ("instruction level: $not[X] for X in {plain item, item with operands, $o
         "$and_any_order, $not (double negation), nested $or-of-$and} in leading / inner / trailing position, repeated "
         "(times 2, {1,2}, {0,1}), two $not in a row, inside $or and $and, with plain neighbours from a 3-item pool; operand "
         "level: $not[x] for x in {name, $or of names, $and of two names} as only / first / middle / last operand item with "
-        "plain neighbours, all 4 flag settings for the single-name forms; x EVERY listing up to the bound (length 4 "
+        "plain neighbours, all 4 flag settings for the single-name forms; $not meeting capture groups (captures defined after "
+        "one or two $not items, back-references inside the argument of a $not at instruction and operand level); x EVERY listing up to the bound (length 4 "
         "instruction level over 4 instructions; length 2 operand level over 8 instructions with 0..3 operands). Oracle: "
         "reference matcher - verdict, spans genuine and record aligned. Non-trivial = reference finds the rule or its "
         "first item matches somewhere.")
@@ -81,8 +82,30 @@ def operand_rules(tier):
     return rules
 
 
+def capture_rules(tier):
+    """$not meets capture groups: captures defined after one or two $not items (group numbering), and back-references
+    inside the argument of a $not (the argument must fail / match for the captured text)"""
+    W = ("verdict", "aligned", "genuine")
+    cap2 = [{"mov": ["&a", "&b"]}, {"mov": ["&b", "&a"]}]
+    rules = []
+    for X in ("mov", "push", {"$or": ["push", "ret"]}, {"$and": ["mov", "push"]}, {"mov": ["rbx", "rax"]}):
+        n = {"$not": [X]}
+        pats = [[n] + cap2, [n, n] + cap2, [cap2[0], n, cap2[1]], cap2 + [n], [{"$not": [X], "times": {"min": 0, "max": 2}}] + cap2,
+                [n, {"push": ["&r"]}, {"$not": [{"push": ["&r"]}]}], [{"$or": [n, "ret"]}] + cap2]
+        for p in pats:
+            rules.append(e1.RuleCase("IC", p, "instr", want=W))
+    back = [[{"mov": ["&a", "&b"]}, {"$not": [{"mov": ["&a", "&b"]}]}], [{"mov": ["&a", "&b"]}, {"$not": [{"mov": ["&b", "&a"]}]}],
+            [{"mov": ["&a", "&b"]}, {"$not": [{"mov": ["&b", "&a"]}]}, "ret"], [{"mov": ["&a", "&b"]}, {"$not": [{"push": ["&a"]}]}],
+            [{"mov": ["&a", "&b"]}, {"$not": [{"push": ["&b"]}]}], [{"push": ["&r"]}, {"$not": [{"mov": ["&r"]}]}, "ret"],
+            ["&i", {"$not": ["&i"]}], ["&i", {"$not": ["&i"]}, "&i"], [{"$not": ["ret"]}, "&i", {"$not": ["&i"]}],
+            [{"mov": ["&a", "&b"]}, {"mov": [{"$not": ["&a"]}, "&a"]}], [{"mov": ["&a", "&b"]}, {"mov": [{"$not": ["&b"]}]}]]
+    for p in back:
+        rules.append(e1.RuleCase("IC", p, "instr", want=W))
+    return rules
+
+
 def all_rules(tier):
-    return instr_rules(tier) + operand_rules(tier)
+    return instr_rules(tier) + operand_rules(tier) + capture_rules(tier)
 
 
 def shards(tier):
